@@ -25,4 +25,8 @@ finally:
     subprocess.run("git -C /repo worktree remove --force %s; rm -rf %s %s" % (wt, wt, scratch), shell=True, capture_output=True)
     # restore evidence files written by the mutated runs
     subprocess.run("git -C /verif checkout -- evidence 2>/dev/null", shell=True)
-json.dump(out, open(os.path.join(d, "detect-%s.json" % tier), "w"), indent=1)
+df = os.path.join(d, "detect-%s.json" % tier)
+try: prev = json.load(open(df))
+except Exception: prev = {}
+prev.update(out)     # results of checks not run this time are kept
+json.dump(prev, open(df, "w"), indent=1)
